@@ -1144,6 +1144,10 @@ func (f *framer) parseResultRows() frame {
 	if result.numRows < 0 {
 		panic(fmt.Errorf("invalid row_count in result frame: %d", result.numRows))
 	}
+	// every cell takes at least the 4 bytes of its length
+	if minRow := 4 * result.meta.colCount; result.numRows > 0 && (minRow == 0 || result.numRows > len(f.buf)/minRow) {
+		panic(fmt.Errorf("invalid row_count in result frame: %d rows of %d columns in %d bytes", result.numRows, result.meta.colCount, len(f.buf)))
+	}
 
 	return result
 }
